@@ -108,7 +108,16 @@ def pytask_unconfigure() -> None:
     test functions with pytask would fail.
 
     """
-    pdb.set_trace, _, _ = PytaskPDB._saved.pop()
+    # A debugger session resumes the live display when it continues. If nothing else
+    # stops the display afterwards, e.g., with ``verbose=0``, it is stopped here.
+    if PytaskPDB._pluginmanager is not None:
+        live_manager = PytaskPDB._pluginmanager.get_plugin("live_manager")
+        if live_manager is not None and live_manager.is_started:
+            live_manager.stop()
+
+    pdb.set_trace, PytaskPDB._pluginmanager, PytaskPDB._config = PytaskPDB._saved.pop()
+    # The wrapped debugger class holds the managers of this session.
+    PytaskPDB._wrapped_pdb_cls = None
 
 
 class PytaskPDB:
